@@ -268,9 +268,12 @@ def coq_bool(b: bool) -> str:
 
 def load_known() -> List[dict]:
     res = []
-    if not KNOWN.exists():
-        return res
-    for line in KNOWN.read_text().splitlines():
+    files = [KNOWN] + sorted((VERIF / "known_findings.d").glob("*.txt"))
+    lines = []
+    for f in files:
+        if f.exists():
+            lines += f.read_text().splitlines()
+    for line in lines:
         line = line.strip()
         if not line or line.startswith("#"):
             continue
